@@ -25,6 +25,9 @@ struct SchedResult{
 };
 
 // One scheduler per process at a time.
+// fibers: the simulated threads of the next sched_begin are cooperative tasks on the calling OS thread (fast; no thread-local storage of their own,
+// so only for code that has none, i.e. the shared cache)
+void sched_use_fibers(int on);
 void sched_begin(int policy,uint64_t seed,const int* replay,int nreplay,int pct_depth,long step_budget);
 int  sched_spawn(sched_body_fn fn,void* arg);      // returns tid; threads start parked
 void sched_run();                                   // run all spawned threads to completion (serialised)
